@@ -79,6 +79,16 @@ Theorem C12_failed_flush_keeps_buffer : forall v p sz (w : world obj) p' w',
 Proof. exact failed_flush_lemma. Qed.
 Print Assumptions C12_failed_flush_keeps_buffer.
 
+(* Over whole workloads: as long as the process has not died (no call found the outcome
+   stream exhausted, no panic), every delta push accepted is either confirmed by a flush that
+   returned Ok or still in the buffer, in order - whatever failed in between. *)
+Theorem C12_accepted_never_lost : forall (c : pcfg) rid st0 (ops : list wop) (io : list outcome),
+  v_restore (pc_var c) = true ->
+  let s := run_persist c rid st0 ops io in
+  w_crashed (s_w s) = false -> ps_acc (s_p s) = ps_conf (s_p s) ++ ps_buf (s_p s).
+Proof. exact accepted_lemma. Qed.
+Print Assumptions C12_accepted_never_lost.
+
 (* Regression (fixed: C12-failed-flush-drops-buffer): as found, a flush whose manifest read
    fails returns Err with an empty buffer; the accepted delta is neither pending nor
    confirmed although the process is alive. *)
